@@ -69,7 +69,25 @@ func (cl *Cluster) modeBackground() {
 	}
 }
 
-func (cl *Cluster) modeCheck(e *event) {}
+func (cl *Cluster) modeCheck(e *event) {
+	c := cl.c
+	if cl.mode != ModeValidation {
+		return
+	}
+	for _, n := range cl.honest() {
+		if n.killReq && !n.killSeen {
+			n.killSeen = true
+			name := "honest-block"
+			if rs := n.roundState(); rs.ProposalBlock != nil {
+				if nm, bad := cl.orc.badByHash(rs.ProposalBlock); bad {
+					name = nm
+				}
+			}
+			stored, status := n.chain.BlockStore.Height(), n.cs.GetState().LastBlockHeight
+			c.Violate("abort-on-committed-block", "C02/abort/"+name, "node %d could not apply a block that gathered a commit (%s) and asked to be killed; block store height %d, consensus status height %d: %s", n.idx, name, stored, status, n.failMsg)
+		}
+	}
+}
 
 // finish records what the run reached.
 func (cl *Cluster) finish() {
@@ -86,6 +104,27 @@ func (cl *Cluster) finish() {
 	}
 	if minH >= 2 {
 		c.NonTrivial()
+	}
+	if cl.mode == ModeValidation && cl.catAt > 0 {
+		since := cl.catAt
+		if cl.cfg.GST > since {
+			since = cl.cfg.GST
+		}
+		stuck := -1
+		for _, n := range cl.honest() {
+			if n.alive && !n.failed && n.lastProg <= cl.catAt {
+				stuck = n.idx
+				break
+			}
+		}
+		switch {
+		case stuck < 0:
+			c.Probe("progress-after-byz-turn")
+		case cl.now-since >= 90*time.Second:
+			c.Violate("wedged", "C02/wedge", "node %d committed nothing in %v of fault-free virtual time after a Byzantine proposer's invalid block", stuck, cl.now-since)
+		default:
+			c.Probe("liveness-inconclusive")
+		}
 	}
 	if minH < uint64(cl.cfg.Heights) {
 		c.Probe("stalled-before-target")
